@@ -324,6 +324,13 @@ func valid(ops []hx.T) bool {
 			if m := o.Int(0); m < 0 || m >= 2 {
 				return false
 			}
+		case "OConcReg":
+			if t := o.Int(0); t < 0 || t > 5000 {
+				return false
+			}
+			if g := o.Int(1); g < 1 || g > 32 {
+				return false
+			}
 		default:
 			panic("c15: unknown op " + o.Name)
 		}
@@ -794,6 +801,13 @@ func Exec(ops []hx.T, tags map[string]bool) (obs any, nontrivial bool) {
 				nontrivial = true
 			}
 			perOp = append(perOp, ev)
+		case "OConcReg":
+			ev, g := runConcReg(o.Int(0), o.Int(1), tags)
+			gor = gor && g
+			if o.Int(0) > 0 {
+				nontrivial = true
+			}
+			perOp = append(perOp, ev)
 		case "OConcW":
 			ev, g, e := runConcW(o.Int(0), o.List(1), tags)
 			gor, esc = gor && g, esc || e
@@ -931,6 +945,7 @@ func runConc(mode int64, progs []any, tags map[string]bool) (events []any, gor, 
 		viaReg = runservice.GetScheMgr().GetSche(rs.Name)
 		if viaReg != s || rs.GetSelector() == nil || rs.IsStopped() {
 			l.addRaw(hx.C("SBad", 1))
+			viaReg = nil // nobody consumes a different scheduler: do not post there
 		}
 		if mode == 4 {
 			runservice.SetPerfLogLevel(runservice.LevelDetail)
@@ -1213,4 +1228,104 @@ func runConcW(mode int64, chains []any, tags map[string]bool) (events []any, gor
 	}
 	tags[fmt.Sprintf("concw-mode-%d", mode)] = true
 	return events, gor, atomic.LoadInt32(&escFlag) != 0
+}
+
+// runConcReg: the registry under concurrency.  Per trial a fresh name; one goroutine creates
+// and starts the RunService of that name while g others look the scheduler up by name and
+// post one closure each, all released together by a spin barrier.  Whatever the interleaving
+// there must be ONE scheduler per name, so every closure runs exactly once, on the service's
+// goroutine.  Returns SBad 6 (several schedulers for one name) / SBad 7 (a closure did not
+// run exactly once); nothing when all is well.
+func runConcReg(trials, g int64, tags map[string]bool) (events []any, gor bool) {
+	events = []any{}
+	gor = true
+	mgr := runservice.GetScheMgr()
+	bad6, bad7 := false, false
+	for trial := int64(0); trial < trials && !bad6 && !bad7; trial++ {
+		name := fmt.Sprintf("c15-reg-%d", atomic.AddInt64(&rsCounter, 1))
+		var arrived int32
+		barrier := func() {
+			atomic.AddInt32(&arrived, 1)
+			for i := 0; atomic.LoadInt32(&arrived) < int32(g)+1; i++ {
+				if i%1000 == 999 {
+					runtime.Gosched()
+				}
+			}
+		}
+		var wg sync.WaitGroup
+		var rs *runservice.RunService
+		got := make([]*sche.Sche, g)
+		ran := make([]int32, g)
+		goids := make([]int64, g)
+		posterIds := make([]int64, g)
+		wg.Add(1)
+		go func() {
+			defer wg.Done()
+			barrier()
+			rs = runservice.NewRunService(name)
+			rs.Start()
+		}()
+		for i := int64(0); i < g; i++ {
+			i := i
+			wg.Add(1)
+			go func() {
+				defer wg.Done()
+				posterIds[i] = curGoid()
+				barrier()
+				s := mgr.GetSche(name)
+				got[i] = s
+				s.Post(func() {
+					atomic.StoreInt64(&goids[i], curGoid())
+					atomic.AddInt32(&ran[i], 1)
+				})
+			}()
+		}
+		wg.Wait()
+		all := func() bool {
+			for i := range ran {
+				if atomic.LoadInt32(&ran[i]) < 1 {
+					return false
+				}
+			}
+			return true
+		}
+		deadline := time.Now().Add(2 * time.Second)
+		for !all() && time.Now().Before(deadline) {
+			time.Sleep(50 * time.Microsecond)
+		}
+		distinct := map[*sche.Sche]bool{rs.GetScheduler(): true}
+		for _, s := range got {
+			distinct[s] = true
+		}
+		if len(distinct) != 1 {
+			bad6 = true
+		}
+		for i := range ran {
+			if atomic.LoadInt32(&ran[i]) != 1 {
+				bad7 = true
+			}
+		}
+		if !bad7 {
+			for i := range goids {
+				if goids[i] != goids[0] {
+					gor = false
+				}
+				for _, p := range posterIds {
+					if goids[i] == p {
+						gor = false
+					}
+				}
+			}
+		}
+		rs.Stop()
+		mgr.DelSche(name)
+	}
+	if bad6 {
+		events = append(events, hx.C("SBad", 6))
+	}
+	if bad7 {
+		events = append(events, hx.C("SBad", 7))
+	}
+	tags["registry-race"] = true
+	return events, gor
 }
